@@ -325,7 +325,7 @@ PROPS = {
         theorems=["C04_sq_exactly_once_unmodified", "C04_sq_every_add_accounted",
                   "C04_sq_panicked_never_published",
                   "C04_sq_never_overwrites_pending", "C04_sq_drained_means_all_delivered"],
-        rule="one splitmix64 stream per case: submission queue of 1..4 entries on the simulated kernel with the "
+        rule="one splitmix64 stream per case: submission queue asked for with 1, 2, 3 or 4 entries (3 is granted as 4: the model works with the granted size) on the simulated kernel with the "
              "counters starting at boundary values (0, 2^31-1.., 2^32-k) or random, optionally pre-filled, 2..3 real "
              "threads each making 1..3 submissions (first poll of a write future) plus a kernel thread consuming "
              "0..3 entries, run one at a time under the baton scheduler with a random schedule (preemption "
